@@ -168,8 +168,8 @@ class C24(Prop):
           "Non-trivial: the fault is reached through dispatch; distinct = distinct case digests.")
   assumptions = [
     "hang detection is a call-count bound enforced by a top()-counting subclass and the handlers",
-    "handlers that return nothing for EXIT/ENTRY/INIT/SEARCH probes are not generated (the "
-    "statement's trigger is an event offered to the state)",
+    "handlers that return nothing ONLY for ENTRY or INIT are not generated as faults (the processor does "
+    "not consult those answers)",
   ]
 
   def strategy(self, tier):
